@@ -49,6 +49,7 @@ func checkC12(c *Ctx) {
 	c.registerBeforeSend()
 	c.autoPacketIDNonZero()
 	c.forwardedIDs()
+	c.closuresCompleteOnce()
 }
 
 // senders: methods of service that write a request into the ring and register it in an ack queue.
@@ -467,4 +468,39 @@ func dedupStrings(in []string) []string {
 		}
 	}
 	return out
+}
+
+// closuresCompleteOnce: the completion closure of a SUBSCRIBE / UNSUBSCRIBE invokes the application's completion
+// callback at most once on every path (directly, or through a reporting helper / a closure built by one: calls of
+// function values are resolved through the call graph when they have one library target).
+func (c *Ctx) closuresCompleteOnce() {
+	n := 0
+	for _, name := range []string{"subscribe", "unsubscribe"} {
+		fn := c.P.Func("service", "service", name)
+		cl := completionClosure(fn)
+		if cl == nil {
+			continue
+		}
+		n++
+		g := paths.New(c.P, cl, 3)
+		g.Dynamic = true
+		g.Expand = func(callee *ssa.Function, site ssa.CallInstruction) bool {
+			return callee.Blocks != nil && callee.Pkg == cl.Pkg && callee != cl
+		}
+		compl := nodeM(isCompletionCall)
+		key := "client-" + name + ":completion-at-most-once"
+		var bad []paths.Node
+		for _, first := range nodesMatching(g, compl) {
+			if p := g.FindPath(g.Succ(first), nil, compl); p != nil {
+				bad = append([]paths.Node{first}, p...)
+			}
+		}
+		if bad != nil {
+			c.R.Bad(ruleP2, key, c.P.InstrPos(bad[0].Instr), "a path through the completion closure of "+name+" invokes the application's completion callback twice (an error exit that reports and then falls through to the normal completion)", c.witness(g, bad)...)
+		} else {
+			c.R.Ok(ruleP2, key, c.P.Pos(cl.Pos()), "no path invokes the completion callback twice")
+		}
+	}
+	c.R.Count("client completion closures (SUBACK, UNSUBACK)", n)
+	c.R.Floor("client completion closures (SUBACK, UNSUBACK)", n, 2)
 }
